@@ -1284,6 +1284,16 @@ func runC13(c *Ctx) {
 			c.Res.HarnessError = err.Error()
 			return
 		}
+		if cs.Kind == "weblist" {
+			var wc c13WeblistCase
+			if err := c.LoadReplay(&wc); err != nil {
+				c.Res.HarnessError = err.Error()
+				return
+			}
+			e.runWeblist(&wc)
+			c.Res.Evaluations++
+			return
+		}
 		if cs.Kind == "symhist" {
 			var sc c13SymCase
 			if err := c.LoadReplay(&sc); err != nil {
@@ -1387,6 +1397,12 @@ func runC13(c *Ctx) {
 	}
 	// symbolizer histories: same file at several biases in one process, nm / addr2line+nm / llvm
 	e.runSymStreams(rSym)
+	// weblist of a real PIE on biased mappings (real gcc/objdump/symbolizer; skipped with a note if absent)
+	{
+		wc := &c13WeblistCase{Kind: "weblist", Biases: []hx{0x100000, 0x555555554000, hx(uint64(1+rSym.Intn(0x7ffff)) * 0x1000)}}
+		c.Res.Count(fmt.Sprint("weblist ", wc.Biases), true)
+		e.runWeblist(wc)
+	}
 	if c.Tier == "thorough" {
 		e.runRealAll(root.Fork())
 	}
